@@ -1822,3 +1822,970 @@ Proof. vm_compute. split; reflexivity. Qed.
 Example ex_check_master : check_master (ex_sel [] 2) = Ok false /\
   check_master (set_own (ex_sel [] 2) (mkSm ELECTION false 2 [(1, IRUNNING); (2, IRUNNING)])) = Ok true.
 Proof. vm_compute. split; reflexivity. Qed.
+
+(* ====================================================================== *)
+(* D. C02, Master part                                                     *)
+(* ====================================================================== *)
+(* a state-modes payload is SM-local when the Master it declares, if any, is RUNNING in its own instance states.
+   Every Supvisors instance maintains this for its own state-modes (own_sm_local below): peers that are real
+   Supvisors instances only publish SM-local payloads. *)
+Definition sm_local (v : smodes) : bool :=
+  Z.eqb (sm_master v) 0 || match aget (sm_master v) (sm_insts v) with Some IRUNNING => true | _ => false end.
+
+(* invariant of the Master part: no duplicate key in instance_state_modes nor in the local instance_states,
+   '' (0) is not an identifier, every stored state-modes (own one included) is SM-local,
+   USER is not among the synchro options *)
+Definition ID (n : node) : Prop :=
+  NoDup (akeys (n_views n)) /\ NoDup (akeys (sm_insts (own n))) /\ amem 0 (n_insts n) = false /\
+  (forall j v, aget j (n_views n) = Some v -> sm_local v = true) /\ o_user (n_opts n) = false.
+
+Lemma akeys_aset {V} : forall j (v : V) l, amem j l = true -> akeys (aset j v l) = akeys l.
+Proof.
+  intros j v l. unfold amem. induction l as [|[k' v'] r IH]; simpl; intros H; [discriminate|].
+  destruct (Z.eqb j k') eqn:E; simpl; [reflexivity|]. f_equal. apply IH. exact H.
+Qed.
+
+Lemma In_akeys_aset {V} : forall x j (v : V) l, In x (akeys (aset j v l)) -> x = j \/ In x (akeys l).
+Proof.
+  intros x j v l. induction l as [|[k' v'] r IH]; simpl; intros H.
+  - destruct H as [H|[]]. left. symmetry. exact H.
+  - destruct (Z.eqb j k'); simpl in H.
+    + right. exact H.
+    + destruct H as [H|H]; [right; left; exact H|]. apply IH in H. destruct H as [H|H]; [left; exact H|right; right; exact H].
+Qed.
+
+Lemma NoDup_akeys_aset {V} : forall j (v : V) l, NoDup (akeys l) -> NoDup (akeys (aset j v l)).
+Proof.
+  intros j v l. induction l as [|[k' v'] r IH]; simpl; intros H.
+  - constructor; [intros []|constructor].
+  - inversion H as [|x t Hx Ht]; subst. destruct (Z.eqb j k') eqn:E; simpl.
+    + constructor; assumption.
+    + constructor; [|apply IH; exact Ht]. intros Hin. apply In_akeys_aset in Hin.
+      destruct Hin as [Hin|Hin]; [subst; rewrite Z.eqb_refl in E; discriminate|contradiction].
+Qed.
+
+Lemma own_aget : forall n, amem (n_me n) (n_views n) = true -> aget (n_me n) (n_views n) = Some (own n).
+Proof. intros n H. unfold own. apply amem_aget in H. destruct H as [v H]. rewrite H. reflexivity. Qed.
+
+Lemma sees_running_aget : forall n m, sees_running n m = true <-> aget m (sm_insts (own n)) = Some IRUNNING.
+Proof.
+  intros n m. unfold sees_running. destruct (aget m (sm_insts (own n))) as [[]|]; split; intro H;
+    first [reflexivity | discriminate].
+Qed.
+
+Lemma own_sm_local : forall n, WF n -> ID n -> sm_local (own n) = true.
+Proof.
+  intros n W [_ [_ [_ [HL _]]]]. apply (HL (n_me n)). apply own_aget. apply WF_me_views. exact W.
+Qed.
+
+Lemma SMlocal : forall n, WF n -> ID n -> master n <> 0 -> sees_running n (master n) = true.
+Proof.
+  intros n W I Hm. assert (H := own_sm_local n W I). unfold sm_local in H. apply orb_prop in H.
+  destruct H as [H|H]; [apply Z.eqb_eq in H; contradiction|]. exact H.
+Qed.
+
+Lemma me_nonzero : forall n, WF n -> ID n -> n_me n <> 0.
+Proof.
+  intros n [W1 _] [_ [_ [Z0 _]]] E. rewrite E in W1. congruence.
+Qed.
+
+(* replacing the own state-modes *)
+Lemma ID_set_own : forall n s, WF n -> ID n -> sm_insts s = sm_insts (own n) -> sm_local s = true -> ID (set_own n s).
+Proof.
+  intros n s W [I1 [I2 [I3 [I4 I5]]]] Ei Hl. repeat split.
+  - simpl. rewrite akeys_aset; [exact I1|apply WF_me_views; exact W].
+  - rewrite own_set_own, Ei. exact I2.
+  - exact I3.
+  - intros j v. simpl. rewrite aget_aset. destruct (Z.eqb j (n_me n)); [|apply I4].
+    intros E. inversion E; subst. exact Hl.
+  - exact I5.
+Qed.
+
+Lemma ID_same : forall n n', ID n -> n_me n' = n_me n -> n_views n' = n_views n ->
+  (forall k, amem k (n_insts n') = amem k (n_insts n)) -> n_opts n' = n_opts n -> ID n'.
+Proof.
+  intros n n' [I1 [I2 [I3 [I4 I5]]]] Eme Ev Ei Eo. unfold ID, own. rewrite Eme, Ev, Ei, Eo.
+  repeat split; assumption.
+Qed.
+
+Lemma set_master_ID : forall n m, WF n -> ID n -> (m = 0 \/ sees_running n m = true) -> ID (fst (set_master n m)).
+Proof.
+  intros n m W I Hm. unfold set_master. destruct (Z.eqb (master n) m); simpl; [exact I|].
+  apply ID_set_own; try assumption; [reflexivity|]. unfold sm_local. simpl.
+  destruct Hm as [Hm|Hm]; [subst; reflexivity|]. unfold sees_running in Hm. rewrite Hm. apply orb_true_r.
+Qed.
+
+Lemma set_degraded_ID : forall n b, WF n -> ID n -> ID (fst (set_degraded n b)).
+Proof.
+  intros n b W I. unfold set_degraded. destruct (Bool.eqb _ b); simpl; [exact I|].
+  apply ID_set_own; try assumption; [reflexivity|]. apply (own_sm_local n W I).
+Qed.
+
+Lemma set_fsm_ID : forall n s, WF n -> ID n -> ID (fst (set_fsm n s)).
+Proof.
+  intros n s W I. unfold set_fsm. destruct (sstate_eqb _ s); simpl; [exact I|].
+  apply ID_set_own; try assumption; [reflexivity|]. apply (own_sm_local n W I).
+Qed.
+
+(* precise effect of update_instance_state on the own state-modes and on the views *)
+Lemma update_instance_state_own : forall n j st n' o, update_instance_state n j st = (n', o) ->
+  amem (n_me n) (n_views n) = true ->
+  own n' = mkSm (sm_fsm (own n)) (sm_degraded (own n))
+                (if negb (istate_eqb st IRUNNING) && Z.eqb j (master n) then 0 else master n)
+                (aset j st (sm_insts (own n)))
+  /\ akeys (n_views n') = akeys (n_views n)
+  /\ (forall k v, aget k (n_views n') = Some v -> v = own n' \/ v = sm_fresh \/ aget k (n_views n) = Some v).
+Proof.
+  intros n j st n' o H Hme. unfold update_instance_state in H.
+  set (s := own n) in *.
+  set (s1 := mkSm (sm_fsm s) (sm_degraded s) (sm_master s) (aset j st (sm_insts s))) in *.
+  set (n1 := set_own n s1) in *.
+  match type of H with (if _ then set_master ?x 0 else _) = _ => set (n2 := x) in * end.
+  assert (F : n_me n2 = n_me n /\ own n2 = s1 /\ akeys (n_views n2) = akeys (n_views n) /\
+              (forall k v, aget k (n_views n2) = Some v ->
+                 (k = n_me n /\ v = s1) \/ v = sm_fresh \/ (k <> n_me n /\ aget k (n_views n) = Some v))).
+  { assert (F1 : n_me n1 = n_me n /\ own n1 = s1 /\ akeys (n_views n1) = akeys (n_views n) /\
+              (forall k v, aget k (n_views n1) = Some v ->
+                 (k = n_me n /\ v = s1) \/ v = sm_fresh \/ (k <> n_me n /\ aget k (n_views n) = Some v))).
+    { split; [reflexivity|]. split; [apply own_set_own|]. split; [simpl; apply akeys_aset; exact Hme|].
+      intros k v. simpl. rewrite aget_aset. destruct (Z.eqb k (n_me n)) eqn:E.
+      - intros X. inversion X; subst. left. apply Z.eqb_eq in E. split; [exact E|reflexivity].
+      - intros X. right. right. apply Z.eqb_neq in E. split; assumption. }
+    assert (F2 : Z.eqb j (n_me n) = false -> amem j (n_views n1) = true ->
+                 let x := set_views n1 (aset j sm_fresh (n_views n1)) in
+                 n_me x = n_me n /\ own x = s1 /\ akeys (n_views x) = akeys (n_views n) /\
+                 (forall k v, aget k (n_views x) = Some v ->
+                    (k = n_me n /\ v = s1) \/ v = sm_fresh \/ (k <> n_me n /\ aget k (n_views n) = Some v))).
+    { intros E Hm x. destruct F1 as [A1 [A2 [A3 A4]]]. split; [reflexivity|]. split.
+      - unfold x. rewrite own_set_views_other; [exact A2|]. apply Z.eqb_neq in E. exact E.
+      - split; [unfold x; simpl; rewrite akeys_aset; [exact A3|exact Hm]|].
+        intros k v. unfold x. simpl n_views at 1. rewrite aget_aset. destruct (Z.eqb k j) eqn:Ek.
+        + intros X. inversion X; subst. right. left. reflexivity.
+        + apply A4. } 
+    unfold n2. destruct st; try exact F1.
+    - destruct (Z.eqb j (n_me n)) eqn:E; [exact F1|].
+      destruct (amem j (n_views n1)) eqn:Em; [|exact F1]. apply F2; reflexivity.
+    - destruct (Z.eqb j (n_me n)) eqn:E; [exact F1|].
+      destruct (amem j (n_views n1)) eqn:Em; [|exact F1]. apply F2; reflexivity. }
+  clearbody n2. destruct F as [A1 [A2 [A3 A4]]].
+  assert (Em2 : master n2 = master n) by (unfold master; rewrite A2; reflexivity).
+  rewrite Em2 in H.
+  assert (G : forall x : node, own x = s1 -> n_views x = n_views n2 ->
+              forall k v, aget k (n_views x) = Some v -> v = own x \/ v = sm_fresh \/ aget k (n_views n) = Some v).
+  { intros x Ex Ev k v X. rewrite Ev in X. apply A4 in X. destruct X as [[_ X]|[X|[_ X]]];
+      [left; congruence|right; left; exact X|right; right; exact X]. }
+  destruct (negb (istate_eqb st IRUNNING) && Z.eqb j (master n)) eqn:Ec.
+  - unfold set_master in H. rewrite Em2 in H. destruct (Z.eqb (master n) 0) eqn:E0.
+    + inversion H; subst. apply Z.eqb_eq in E0. split; [rewrite A2; unfold s1; rewrite <- E0; reflexivity|].
+      split; [exact A3|]. apply G; [exact A2|reflexivity].
+    + inversion H; subst. clear H. split; [rewrite own_set_own, A2; reflexivity|].
+      split; [simpl; rewrite akeys_aset; [exact A3|]; rewrite A1; apply In_keys_amem; rewrite A3;
+              eapply aget_In_keys; apply own_aget; exact Hme|].
+      intros k v. simpl. rewrite aget_aset, A1. destruct (Z.eqb k (n_me n)) eqn:Ek.
+      * intros X. inversion X; subst. left. rewrite own_set_own. reflexivity.
+      * intros X. apply A4 in X. destruct X as [[X _]|[X|[_ X]]];
+          [apply Z.eqb_neq in Ek; contradiction|right; left; exact X|right; right; exact X].
+  - inversion H; subst. split; [exact A2|]. split; [exact A3|]. apply (G (set_mark n2 true)); [exact A2|reflexivity].
+Qed.
+
+Lemma set_inst_state_ID : forall n j st now n' o, set_inst_state n j st now = Ok (n', o) -> WF n -> ID n -> ID n'.
+Proof.
+  intros n j st now n' o H W I.
+  assert (K := set_inst_state_FR _ _ _ _ _ _ H). destruct K as [[_ [Ko _]] _].
+  unfold set_inst_state in H.
+  destruct (aget j (n_insts n)) as [s|] eqn:Ej; [|discriminate].
+  destruct (istate_eqb (is_state s) st); [inversion H; subst; exact I|].
+  destruct (inst_transition_ok (is_state s) st); [|discriminate].
+  inversion H as [H1]. clear H.
+  assert (F := update_instance_state_fields _ _ _ _ _ H1). destruct F as [_ [_ [A3 _]]].
+  apply update_instance_state_own in H1; [|apply (WF_me_views n W)].
+  destruct H1 as [B1 [B2 B3]]. unfold master in B1. simpl in B2, B3.
+  repeat match goal with H : context [own (set_insts n ?x)] |- _ => change (own (set_insts n x)) with (own n) in H end.
+  fold (master n) in B1.
+  assert (Hloc := own_sm_local n W I).
+  destruct I as [I1 [I2 [I3 [I4 I5]]]].
+  assert (Hown : sm_local (own n') = true).
+  { rewrite B1. unfold sm_local. simpl.
+    destruct (negb (istate_eqb st IRUNNING) && Z.eqb j (master n)) eqn:Ec; [reflexivity|].
+    unfold sm_local in Hloc. fold (master n) in Hloc. apply orb_prop in Hloc. destruct Hloc as [Hl|Hl]; [rewrite Hl; reflexivity|].
+    rewrite aget_aset. destruct (Z.eqb (master n) j) eqn:Em; [|rewrite Hl; apply orb_true_r].
+    rewrite Z.eqb_sym, Em, andb_true_r in Ec. apply negb_false_iff in Ec. apply istate_eqb_eq in Ec. subst.
+    apply orb_true_r. }
+  repeat split.
+  - rewrite B2. exact I1.
+  - rewrite B1. simpl. apply NoDup_akeys_aset. exact I2.
+  - rewrite A3. simpl n_insts. rewrite amem_aset_same; [exact I3|]. unfold amem. rewrite Ej. reflexivity.
+  - intros k v X. apply B3 in X. destruct X as [X|[X|X]]; [subst; exact Hown|subst; reflexivity|eapply I4; exact X].
+  - rewrite Ko. exact I5.
+Qed.
+
+(* WF in "= Ok ->" form *)
+Lemma okW_WF : forall A (r : result A) (g : A -> node) a, okW r (fun x => WF (g x)) -> r = Ok a -> WF (g a).
+Proof. intros A r g a H E. subst. exact H. Qed.
+
+Definition IV (n : node) : Prop := WF n /\ ID n.
+
+Lemma set_inst_state_IV : forall n j st now n' o, set_inst_state n j st now = Ok (n', o) -> IV n -> IV n'.
+Proof.
+  intros n j st now n' o H [W I]. split; [eapply set_inst_state_WF; eassumption|eapply set_inst_state_ID; eassumption].
+Qed.
+
+Lemma fold_ids_IV : forall f, (forall n j n' o, f n j = Ok (n', o) -> IV n -> IV n') ->
+  forall ids n acc n' outs, fold_ids f ids n acc = Ok (n', outs) -> IV n -> IV n'.
+Proof.
+  intros f Hf ids. induction ids as [|j r IH]; simpl; intros n acc n' outs H HI.
+  - inversion H; subst. exact HI.
+  - destruct (f n j) as [[n1 o1]|k] eqn:E; [|discriminate]. eapply IH; [exact H|]. eapply Hf; eassumption.
+Qed.
+
+Lemma on_timer_IV : forall n cnt now n' o, on_timer n cnt now = Ok (n', o) -> IV n -> IV n'.
+Proof.
+  intros n cnt now n' o H HI0. unfold on_timer in H. eapply fold_ids_IV; [|exact H|exact HI0].
+  clear. intros n j n' o H HI. cbv beta in H. destruct (aget j (n_insts n)) as [s|].
+  - destruct (is_inactive n s cnt); [eapply set_inst_state_IV; eassumption|inversion H; subst; exact HI].
+  - inversion H; subst. exact HI.
+Qed.
+
+Lemma invalidate_IV : forall n j fence now n' o, invalidate n j fence now = Ok (n', o) -> IV n -> IV n'.
+Proof.
+  intros n j fence now n' o H. unfold invalidate in H.
+  destruct (Z.eqb j (n_me n)); [eapply set_inst_state_IV; eassumption|].
+  destruct (fence || _); eapply set_inst_state_IV; eassumption.
+Qed.
+
+Lemma IV_same : forall n n', IV n -> n_me n' = n_me n -> n_nick n' = n_nick n -> n_insts n' = n_insts n ->
+  n_views n' = n_views n -> n_opts n' = n_opts n -> IV n'.
+Proof.
+  intros n n' [W I] E1 E2 E3 E4 E5. split; [eapply WF_same; eassumption|].
+  eapply ID_same; try eassumption. intros k. rewrite E3. reflexivity.
+Qed.
+
+Lemma invalidate_failed_aux_IV : forall ids n acc lost lostp now n' outs lost' lostp',
+  invalidate_failed_aux ids n acc lost lostp now = Ok (n', outs, lost', lostp') -> IV n -> IV n'.
+Proof.
+  induction ids as [|j r IH]; simpl; intros n acc lost lostp now n' outs lost' lostp' H HI.
+  - inversion H; subst. exact HI.
+  - destruct (inst_state n j) as [[]|]; try (eapply IH; eassumption).
+    destruct (invalidate n j false now) as [[n1 o1]|k] eqn:E; [|discriminate].
+    apply invalidate_IV in E; [|exact HI]. eapply IH; [exact H|]. eapply IV_same; [exact E| | | | |]; reflexivity.
+Qed.
+
+Lemma activate_checked_aux_IV : forall ids n acc act now n' outs act',
+  activate_checked_aux ids n acc act now = Ok (n', outs, act') -> IV n -> IV n'.
+Proof.
+  induction ids as [|j r IH]; simpl; intros n acc act now n' outs act' H HI.
+  - inversion H; subst. exact HI.
+  - destruct (inst_state n j) as [[]|]; try (eapply IH; eassumption).
+    destruct (set_inst_state n j IRUNNING now) as [[n1 o1]|k] eqn:E; [|discriminate].
+    apply set_inst_state_IV in E; [|exact HI]. eapply IH; eassumption.
+Qed.
+
+Lemma check_instances_IV : forall n now n' o lost lostp d,
+  check_instances n now = Ok (n', o, lost, lostp, d) -> IV n -> IV n'.
+Proof.
+  intros n now n' o lost lostp d H HI. unfold check_instances, invalidate_failed, activate_checked in H.
+  destruct (invalidate_failed_aux _ _ _ _ _ _) as [[[[n1 o1] l1] lp1]|k] eqn:E1; [|discriminate].
+  apply invalidate_failed_aux_IV in E1; [|exact HI].
+  destruct (act_of (fsm_state n)).
+  - destruct (activate_checked_aux _ _ _ _ _) as [[[n2 o2] act]|k] eqn:E2; [|discriminate].
+    apply activate_checked_aux_IV in E2; [|exact E1]. inversion H; subst. exact E2.
+  - destruct (activate_checked_aux _ _ _ _ _) as [[[n2 o2] act]|k] eqn:E2; [|discriminate].
+    apply activate_checked_aux_IV in E2; [|exact E1]. inversion H; subst. exact E2.
+  - inversion H; subst. exact E1.
+Qed.
+
+
+(* ---------- stability: the protocol argument ---------- *)
+Lemma aget_In {V} : forall k (l : alist V) v, aget k l = Some v -> In (k, v) l.
+Proof.
+  intros k l. induction l as [|[k' v'] r IH]; simpl; intros v H; [discriminate|].
+  destruct (Z.eqb k k') eqn:E.
+  - apply Z.eqb_eq in E. inversion H; subst. left. reflexivity.
+  - right. apply IH. exact H.
+Qed.
+
+Lemma In_aget_nodup {V} : forall k (l : alist V) v, NoDup (akeys l) -> In (k, v) l -> aget k l = Some v.
+Proof.
+  intros k l. induction l as [|[k' v'] r IH]; simpl; intros v Hnd H; [contradiction|].
+  inversion Hnd as [|x t Hx Ht]; subst. destruct H as [H|H].
+  - inversion H; subst. rewrite Z.eqb_refl. reflexivity.
+  - destruct (Z.eqb k k') eqn:E.
+    + apply Z.eqb_eq in E. subst. exfalso. apply Hx. unfold akeys. apply in_map_iff. exists (k', v). split; [reflexivity|exact H].
+    + apply IH; assumption.
+Qed.
+
+Lemma running_views_In : forall n l rv, NoDup (akeys l) -> running_views n l = Ok rv ->
+  forall j v, In (j, v) rv <-> (aget j l = Some v /\ aget j (sm_insts (own n)) = Some IRUNNING).
+Proof.
+  intros n l. induction l as [|[k s] r IH]; simpl; intros rv Hnd H j v.
+  - inversion H; subst. split; [intros []|intros [X _]; discriminate].
+  - inversion Hnd as [|x t Hx Ht]; subst.
+    destruct (aget k (sm_insts (own n))) as [st|] eqn:Ek; [|discriminate].
+    destruct (running_views n r) as [t|kk] eqn:Er; [|discriminate]. simpl in H. inversion H; subst. clear H.
+    specialize (IH t Ht eq_refl j v).
+    assert (Hne : forall w, aget j r = Some w -> Z.eqb j k = false).
+    { intros w Hw. destruct (Z.eqb j k) eqn:E; [|reflexivity]. apply Z.eqb_eq in E. subst.
+      exfalso. apply Hx. eapply aget_In_keys. exact Hw. }
+    split.
+    + intros Hin. destruct (istate_eqb st IRUNNING) eqn:Est.
+      * destruct Hin as [Hin|Hin].
+        -- inversion Hin; subst. rewrite Z.eqb_refl. apply istate_eqb_eq in Est. subst. split; [reflexivity|exact Ek].
+        -- apply IH in Hin. destruct Hin as [A B]. rewrite (Hne v A). split; assumption.
+      * apply IH in Hin. destruct Hin as [A B]. rewrite (Hne v A). split; assumption.
+    + intros [A B]. destruct (Z.eqb j k) eqn:E.
+      * apply Z.eqb_eq in E. subst. inversion A; subst. rewrite Ek in B. inversion B; subst. simpl. left. reflexivity.
+      * assert (X : In (j, v) t) by (apply IH; split; assumption).
+        destruct (istate_eqb st IRUNNING); [right; exact X|exact X].
+Qed.
+
+Lemma zset_eq_In : forall a b, zset_eq a b = true -> forall x, In x a <-> In x b.
+Proof.
+  intros a b H x. unfold zset_eq in H. apply andb_prop in H. destruct H as [H1 H2].
+  rewrite forallb_forall in H1, H2. split; intros Hx.
+  - apply zmem_In. apply H1. exact Hx.
+  - apply zmem_In. apply H2. exact Hx.
+Qed.
+
+Lemma stable_running_spec : forall l acc, stable_running l acc <> [] ->
+  forall x, In x (stable_running l acc) <-> (In x acc \/ In (x, IRUNNING) l).
+Proof.
+  induction l as [|[j st] r IH]; simpl; intros acc Hne x.
+  - split; [intro H; left; exact H|intros [H|[]]; exact H].
+  - destruct (is_stable_istate st); [|contradiction].
+    rewrite (IH _ Hne x). destruct (istate_eqb st IRUNNING) eqn:E.
+    + apply istate_eqb_eq in E. subst. rewrite zadd_In. split.
+      * intros [[H|H]|H]; [left; exact H|right; left; subst; reflexivity|right; right; exact H].
+      * intros [H|[H|H]]; [left; left; exact H|inversion H; subst; left; right; reflexivity|right; exact H].
+    + split.
+      * intros [H|H]; [left; exact H|right; right; exact H].
+      * intros [H|[H|H]]; [left; exact H| |right; exact H].
+        inversion H; subst. simpl in E. discriminate.
+Qed.
+
+(* the stable identifiers agree with the set of RUNNING instances of every view of an instance seen RUNNING *)
+Definition StabC (n : node) (s : list Z) : Prop :=
+  forall j v, aget j (n_views n) = Some v -> aget j (sm_insts (own n)) = Some IRUNNING ->
+    zset_eq (stable_running (sm_insts v) []) s = true.
+
+Lemma evaluate_stability_StabC : forall n n', ID n -> evaluate_stability n = Ok n' ->
+  n' = set_stable n (n_stable n') /\ (n_stable n' <> [] -> StabC n' (n_stable n')).
+Proof.
+  intros n n' [Hnd _] H. unfold evaluate_stability in H.
+  destruct (running_views n (n_views n)) as [rv|k] eqn:Er; [|discriminate]. simpl in H.
+  assert (X : forall s, n' = set_stable n s -> (s = [] \/ forall js, In js rv -> zset_eq (stable_running (sm_insts (snd js)) []) s = true) ->
+              n' = set_stable n (n_stable n') /\ (n_stable n' <> [] -> StabC n' (n_stable n'))).
+  { intros s E Hs. subst n'. simpl. split; [reflexivity|]. intros Hne. destruct Hs as [Hs|Hs]; [contradiction|].
+    intros j v A B. apply (Hs (j, v)). apply (running_views_In n (n_views n) rv Hnd Er). split; assumption. }
+  destruct (map (fun js => stable_running (sm_insts (snd js)) []) rv) as [|s0 t] eqn:Em.
+  - inversion H; subst. apply (X []); [reflexivity|left; reflexivity].
+  - match type of H with (if ?c then _ else _) = _ => destruct c eqn:Ef end; inversion H; subst.
+    + apply (X s0); [reflexivity|right]. intros js Hjs. rewrite forallb_forall in Ef. apply Ef. rewrite <- Em.
+      apply in_map_iff. exists js. split; [reflexivity|exact Hjs].
+    + apply (X []); [reflexivity|left; reflexivity].
+Qed.
+
+Lemma StabC_set_own : forall n s s', WF n -> StabC n s -> sm_insts s' = sm_insts (own n) -> StabC (set_own n s') s.
+Proof.
+  intros n s s' W H E j v. rewrite own_set_own, E. simpl. rewrite aget_aset. destruct (Z.eqb j (n_me n)) eqn:Ej.
+  - intros A B. inversion A; subst. rewrite E. apply Z.eqb_eq in Ej. subst j.
+    apply (H (n_me n) (own n)); [apply own_aget; apply WF_me_views; exact W|exact B].
+  - apply H.
+Qed.
+
+Lemma set_degraded_StabC : forall n b s, WF n -> StabC n s -> StabC (fst (set_degraded n b)) s.
+Proof.
+  intros n b s W H. unfold set_degraded. destruct (Bool.eqb _ b); simpl; [exact H|].
+  apply StabC_set_own; [exact W|exact H|reflexivity].
+Qed.
+
+Lemma local_running_sees : forall n, WF n -> local_running n = true -> aget (n_me n) (sm_insts (own n)) = Some IRUNNING.
+Proof.
+  intros n [_ [W2 _]] H. unfold local_running, inst_state in H. rewrite W2.
+  destruct (aget (n_me n) (n_insts n)) as [s|]; [|discriminate]. simpl. destruct (is_state s); try discriminate. reflexivity.
+Qed.
+
+(* is_stable + SM-local views: a Master declared by an instance seen RUNNING is seen RUNNING locally *)
+Lemma stable_declared_running : forall n s, WF n -> ID n -> StabC n s -> s <> [] -> local_running n = true ->
+  forall j v, aget j (n_views n) = Some v -> aget j (sm_insts (own n)) = Some IRUNNING -> sm_master v <> 0 ->
+    sees_running n (sm_master v) = true.
+Proof.
+  intros n s W I HS Hne L j v A B Hm.
+  assert (Hown := HS (n_me n) (own n) (own_aget n (WF_me_views n W)) (local_running_sees n W L)).
+  assert (Hv := HS j v A B).
+  destruct I as [_ [Ind [_ [Hloc _]]]].
+  assert (Lv := Hloc j v A). unfold sm_local in Lv. apply orb_prop in Lv.
+  destruct Lv as [Lv|Lv]; [apply Z.eqb_eq in Lv; contradiction|].
+  destruct (aget (sm_master v) (sm_insts v)) as [[]|] eqn:Em; try discriminate. apply aget_In in Em.
+  assert (NE : forall l, zset_eq l s = true -> l <> []).
+  { intros l Hl El. subst l. unfold zset_eq in Hl. simpl in Hl. destruct s; [contradiction|discriminate]. }
+  assert (M1 : In (sm_master v) (stable_running (sm_insts v) [])).
+  { apply stable_running_spec; [apply NE; exact Hv|]. right. exact Em. }
+  apply (zset_eq_In _ _ Hv) in M1. apply (zset_eq_In _ _ Hown) in M1.
+  apply stable_running_spec in M1; [|apply NE; exact Hown]. destruct M1 as [[]|M1].
+  apply sees_running_aget. apply In_aget_nodup; assumption.
+Qed.
+
+Lemma master_identifiers_In : forall n ms M, ID n -> master_identifiers n = Ok ms -> In M ms ->
+  exists j v, aget j (n_views n) = Some v /\ aget j (sm_insts (own n)) = Some IRUNNING /\ sm_master v = M.
+Proof.
+  intros n ms M [Hnd _] H Hin. unfold master_identifiers in H.
+  destruct (running_views n (n_views n)) as [rv|k] eqn:Er; [|discriminate]. simpl in H. inversion H; subst. clear H.
+  fold (masters_of rv []) in Hin. apply masters_of_In in Hin. destruct Hin as [[]|[[j v] [Hjs Em]]].
+  apply (running_views_In n (n_views n) rv Hnd Er) in Hjs. destruct Hjs as [A B].
+  exists j, v. split; [exact A|]. split; [exact B|exact Em].
+Qed.
+
+Lemma select_master_ID : forall n s n' o, WF n -> ID n -> StabC n s -> s <> [] -> local_running n = true ->
+  select_master n = Ok (n', o) -> ID n'.
+Proof.
+  intros n s n' o W I HS Hne L H.
+  destruct (master_identifiers_WF n W) as [ms Ems].
+  destruct (select_master_rule n ms n' o Ems H) as [M [_ [Hp [Hset _]]]].
+  assert (X : M = 0 \/ sees_running n M = true).
+  { right. unfold sel_pool in Hp.
+    assert (HD : In M (sel_declared n ms) -> sees_running n M = true).
+    { intros HinD. unfold sel_declared in HinD. apply filter_In in HinD. destruct HinD as [Hin Hk].
+      destruct (master_identifiers_In n ms M I Ems Hin) as [j [v [A [B Em]]]]. subst M.
+      apply (stable_declared_running n s W I HS Hne L j v A B).
+      intros E0. rewrite E0 in Hk. destruct I as [_ [_ [Z0 _]]]. congruence. }
+    destruct (sel_declared n ms) as [|d t]; [|apply HD; exact Hp].
+    unfold sel_running in Hp. apply in_map_iff in Hp. destruct Hp as [[k st] [Ek Hin]]. simpl in Ek. subst k.
+    apply filter_In in Hin. destruct Hin as [Hin Est]. simpl in Est. apply istate_eqb_eq in Est. subst st.
+    apply sees_running_aget. apply In_aget_nodup; [apply I|exact Hin]. }
+  assert (Y := set_master_ID n M W I X). rewrite Hset in Y. exact Y.
+Qed.
+
+
+(* ---------- decisions of instance.next() ---------- *)
+(* ex = the exemption of NodeSpec (SHUTTING_DOWN entered by the SHUTDOWN failure strategy, finding F5);
+   without it the SHUTDOWN strategy must not be configured *)
+Definition IVx (ex : bool) (n : node) : Prop :=
+  WF n /\ ID n /\ (ex = true \/ o_fstrategy (n_opts n) <> FS_SHUTDOWN).
+
+(* a decision that enters a state needing a Master is taken with a Master seen RUNNING *)
+Definition Jd (ex : bool) (n : node) (d : option sstate) : Prop :=
+  match d with
+  | None => True
+  | Some ns => needs_master (scode ns) = true -> ns <> fsm_state n ->
+               (ex = true /\ ns = SHUTTING_DOWN) \/ (master n <> 0 /\ sees_running n (master n) = true)
+  end.
+
+Definition soft (n : node) (d : sstate) : Prop :=
+  d = OFF \/ d = SYNCHRONIZATION \/ d = ELECTION \/ (d = SHUTTING_DOWN /\ o_fstrategy (n_opts n) = FS_SHUTDOWN).
+
+Lemma Jd_soft : forall ex n d, (ex = true \/ o_fstrategy (n_opts n) <> FS_SHUTDOWN) -> soft n d -> Jd ex n (Some d).
+Proof.
+  intros ex n d Hx [H|[H|[H|[H Hf]]]] Hn _; subst d; try (vm_compute in Hn; discriminate).
+  destruct Hx as [Hx|Hx]; [left; split; [exact Hx|reflexivity]|contradiction].
+Qed.
+
+Lemma Jd_master : forall ex n d, WF n -> ID n -> is_master n = true -> local_running n = true -> Jd ex n (Some d).
+Proof.
+  intros ex n d W I M L _ _. right. unfold is_master in M. apply Z.eqb_eq in M. rewrite M.
+  split; [apply me_nonzero; assumption|]. apply sees_running_aget. apply local_running_sees; assumption.
+Qed.
+
+Lemma Jd_slave : forall ex n, WF n -> ID n -> Jd ex n (master_state n).
+Proof.
+  intros ex n W I. unfold Jd, master_state. destruct (aget (master n) (n_views n)) as [v|] eqn:E; [|exact Logic.I].
+  intros _ _. right.
+  assert (Hm : master n <> 0).
+  { intros E0. rewrite E0 in E. destruct W as [_ [_ [W3 _]]]. destruct I as [_ [_ [Z0 _]]].
+    specialize (W3 0). unfold amem in W3 at 1. rewrite E in W3. congruence. }
+  split; [exact Hm|apply SMlocal; assumption].
+Qed.
+
+Lemma check_failure_strategy_dec : forall n lost n' o d, check_failure_strategy n lost = (n', o, Some d) ->
+  d = SYNCHRONIZATION \/ (d = SHUTTING_DOWN /\ o_fstrategy (n_opts n) = FS_SHUTDOWN).
+Proof.
+  intros n lost n' o d H. unfold check_failure_strategy in H.
+  destruct (set_degraded n _) as [n1 o1]. injection H as H1 H2 H3.
+  match type of H3 with (if ?c then _ else _) = _ => destruct c end; [|discriminate].
+  destruct (o_fstrategy (n_opts n)); inversion H3; subst; [left; reflexivity|right; split; reflexivity].
+Qed.
+
+Lemma sync_consistence_D : forall n lost n' o d s, WF n -> ID n -> (s <> [] -> StabC n s) ->
+  sync_consistence n lost = (n', o, d) ->
+  ID n' /\ (s <> [] -> StabC n' s) /\ n_stable n' = n_stable n /\ n_opts n' = n_opts n /\ fsm_state n' = fsm_state n /\
+  match d with Some x => soft n' x | None => True end.
+Proof.
+  intros n lost n' o d s W I HS H. unfold sync_consistence, on_consistence in H.
+  destruct (local_running n).
+  - assert (Hd : match d with Some x => x = SYNCHRONIZATION \/ (x = SHUTTING_DOWN /\ o_fstrategy (n_opts n) = FS_SHUTDOWN) | None => True end).
+    { destruct d; [|exact Logic.I]. eapply check_failure_strategy_dec. exact H. }
+    unfold check_failure_strategy in H.
+    match type of H with (let '(_, _) := set_degraded n ?b in _) = _ =>
+      assert (X := set_degraded_ID n b W I);
+      assert (Y : s <> [] -> StabC (fst (set_degraded n b)) s) by (intro Hne; apply set_degraded_StabC; [exact W|apply HS; exact Hne]);
+      assert (Z1 : n_stable (fst (set_degraded n b)) = n_stable n /\ n_opts (fst (set_degraded n b)) = n_opts n
+                   /\ fsm_state (fst (set_degraded n b)) = fsm_state n)
+        by (unfold set_degraded; destruct (Bool.eqb _ b); simpl; repeat split; unfold fsm_state; rewrite own_set_own; reflexivity);
+      destruct (set_degraded n b) as [n1 o1] end.
+    simpl in X, Y, Z1. injection H as H1 H2 H3. subst n' o. destruct Z1 as [Z1 [Z2 Z3]].
+    refine (conj X (conj Y (conj Z1 (conj Z2 (conj Z3 _))))).
+    destruct d as [x|]; [|exact Logic.I]. unfold soft. rewrite Z2.
+    destruct Hd as [Hd|Hd]; [right; left; exact Hd|right; right; right; exact Hd].
+  - inversion H; subst. refine (conj I (conj HS (conj eq_refl (conj eq_refl (conj eq_refl _))))). left. reflexivity.
+Qed.
+
+Lemma ms_consistence_D : forall n lost n' o d, WF n -> ID n -> ms_consistence n lost = Ok (n', o, d) ->
+  ID n' /\ n_opts n' = n_opts n /\ fsm_state n' = fsm_state n /\
+  match d with Some x => soft n' x | None => local_running n' = true end.
+Proof.
+  intros n lost n' o d W I H. unfold ms_consistence in H.
+  destruct (sync_consistence n lost) as [[n1 o1] d1] eqn:E.
+  assert (WL := sync_consistence_W n lost n1 o1 d1 W E).
+  assert (X : ID n1 /\ n_opts n1 = n_opts n /\ fsm_state n1 = fsm_state n /\ match d1 with Some x => soft n1 x | None => True end).
+  { unfold sync_consistence, on_consistence in E. destruct (local_running n).
+    - assert (Hd : match d1 with Some x => x = SYNCHRONIZATION \/ (x = SHUTTING_DOWN /\ o_fstrategy (n_opts n) = FS_SHUTDOWN) | None => True end).
+      { destruct d1; [|exact Logic.I]. eapply check_failure_strategy_dec. exact E. }
+      unfold check_failure_strategy in E.
+      match type of E with (let '(_, _) := set_degraded n ?b in _) = _ =>
+        assert (X := set_degraded_ID n b W I);
+        assert (Z1 : n_opts (fst (set_degraded n b)) = n_opts n /\ fsm_state (fst (set_degraded n b)) = fsm_state n)
+          by (unfold set_degraded; destruct (Bool.eqb _ b); simpl; repeat split; unfold fsm_state; rewrite own_set_own; reflexivity);
+        destruct (set_degraded n b) as [n2 o2] end.
+      simpl in X, Z1. injection E as H1 H2 H3. subst n1 o1. destruct Z1 as [Z2 Z3]. refine (conj X (conj Z2 (conj Z3 _))).
+      destruct d1 as [x|]; [|exact Logic.I]. unfold soft. rewrite Z2.
+      destruct Hd as [Hd|Hd]; [right; left; exact Hd|right; right; right; exact Hd].
+    - inversion E; subst. refine (conj I (conj eq_refl (conj eq_refl _))). left. reflexivity. }
+  destruct X as [X1 [X2 [X3 X4]]]. destruct WL as [W1 L1].
+  destruct d1 as [x|].
+  - inversion H; subst. exact (conj X1 (conj X2 (conj X3 X4))).
+  - destruct (check_master n1) as [ok|k]; [|discriminate]. simpl in H. inversion H; subst.
+    refine (conj X1 (conj X2 (conj X3 _))). destruct ok; [apply L1; reflexivity|]. right. right. left. reflexivity.
+Qed.
+
+Lemma Jd_nm : forall ex n d, needs_master (scode d) = false -> Jd ex n (Some d).
+Proof. intros ex n d H Hn. congruence. Qed.
+
+Lemma Jd_same : forall ex n d, d = fsm_state n -> Jd ex n (Some d).
+Proof. intros ex n d H _ Hne. contradiction. Qed.
+
+Lemma Jd_known_master : forall ex n x d, WF n -> ID n -> master_state n = Some x -> Jd ex n (Some d).
+Proof.
+  intros ex n x d W I H _ _. right. unfold master_state in H.
+  destruct (aget (master n) (n_views n)) as [v|] eqn:E; [|discriminate].
+  assert (Hm : master n <> 0).
+  { intros E0. rewrite E0 in E. destruct W as [_ [_ [W3 _]]]. destruct I as [_ [_ [Z0 _]]].
+    specialize (W3 0). unfold amem in W3 at 1. rewrite E in W3. congruence. }
+  split; [exact Hm|apply SMlocal; assumption].
+Qed.
+
+Lemma check_instances_dec : forall n now n' o lost lostp x,
+  check_instances n now = Ok (n', o, lost, lostp, Some x) -> x = ELECTION.
+Proof.
+  intros n now n' o lost lostp x H. unfold check_instances in H.
+  destruct (invalidate_failed n now) as [[[[n1 o1] l1] lp1]|k]; [|discriminate].
+  destruct (act_of (fsm_state n)).
+  - destruct (activate_checked n1 now) as [[[n2 o2] act]|k]; [|discriminate]. inversion H.
+  - destruct (activate_checked n1 now) as [[[n2 o2] act]|k]; [|discriminate].
+    destruct act; inversion H. reflexivity.
+  - inversion H.
+Qed.
+
+Lemma fsm_next_D : forall ex n orc now n' o d, IVx ex n -> fsm_next n orc now = Ok (n', o, d) ->
+  IVx ex n' /\ Jd ex n' d.
+Proof.
+  intros ex n orc now n' o d [W [I Hx]] H.
+  assert (W' : WF n') by (apply (okW_WF _ _ (fun r => fst (fst r)) _ (fsm_next_okW n orc now W) H)).
+  assert (F := fsm_next_FR _ _ _ _ _ _ H). destruct F as [[_ [Ko _]] [Es _]].
+  assert (Hx' : ex = true \/ o_fstrategy (n_opts n') <> FS_SHUTDOWN) by (rewrite Ko; exact Hx).
+  cut (ID n' /\ Jd ex n' d); [intros [A B]; split; [split; [exact W'|split; [exact A|exact Hx']]|exact B]|].
+  unfold fsm_next in H.
+  destruct (check_instances n now) as [[[[[n1 o1] lost] lostp] d1]|k] eqn:E1; [|discriminate].
+  assert (IV1 : IV n1) by (eapply check_instances_IV; [exact E1|split; assumption]). destruct IV1 as [W1 I1].
+  destruct d1 as [d1|].
+  { apply check_instances_dec in E1. inversion H; subst. split; [exact I1|]. apply Jd_nm. reflexivity. }
+  destruct (evaluate_stability n1) as [n2|k] eqn:E2; [|discriminate].
+  assert (W2 : WF n2) by (apply (okW_WF _ _ (fun r => r) _ (evaluate_stability_okW n1 W1) E2)).
+  destruct (evaluate_stability_StabC n1 n2 I1 E2) as [En2 HS2].
+  assert (I2 : ID n2) by (rewrite En2; eapply ID_same; [exact I1| | | |]; reflexivity).
+  clear E1 E2 En2.
+  destruct (fsm_state n) eqn:Est.
+  - (* OFF *) inversion H; subst. split; [exact I2|]. apply Jd_nm. destruct (local_running n'); reflexivity.
+  - (* SYNCHRONIZATION *)
+    unfold on_consistence in H. destruct (local_running n2).
+    + assert (Eu : o_user (n_opts n2) = false) by apply I2. rewrite Eu in H.
+      match type of H with (let '(_, _) := set_degraded n2 ?b in _) = _ =>
+        assert (X := set_degraded_ID n2 b W2 I2); destruct (set_degraded n2 b) as [n4 o4] end.
+      simpl in X. inversion H; subst. split; [exact X|]. apply Jd_nm.
+      match goal with |- context [if ?c then ELECTION else SYNCHRONIZATION] => destruct c end; reflexivity.
+    + inversion H; subst. split; [exact I2|]. apply Jd_nm. reflexivity.
+  - (* ELECTION *)
+    destruct (sync_consistence n2 lost) as [[n3 o3] d3] eqn:E3.
+    assert (WL := sync_consistence_W n2 lost n3 o3 d3 W2 E3). destruct WL as [W3 L3].
+    destruct (sync_consistence_D n2 lost n3 o3 d3 (n_stable n2) W2 I2 HS2 E3) as [I3 [HS3 [Est3 [Eo3 [Ef3 Hd3]]]]].
+    destruct d3 as [x|].
+    { inversion H; subst. split; [exact I3|]. apply Jd_soft; assumption. }
+    specialize (L3 eq_refl).
+    assert (SM : is_stable n3 = true -> forall r, select_master n3 = Ok r -> ID (fst r)).
+    { intros Hst [n4 o4] E4. simpl. unfold is_stable in Hst.
+      eapply (select_master_ID n3 (n_stable n3)); try eassumption.
+      - rewrite Est3. apply HS3. rewrite <- Est3. intro E0. rewrite E0 in Hst. discriminate.
+      - intro E0. rewrite E0 in Hst. discriminate. }
+    destruct (is_stable n3) eqn:Hst; [|inversion H; subst; split; [exact I3|apply Jd_nm; reflexivity]].
+    specialize (SM eq_refl).
+    assert (SMb : forall oa ob, bind (select_master n3) (fun r => Ok (fst r, oa ++ ob ++ snd r, Some ELECTION)) = Ok (n', o, d) ->
+                  ID n' /\ Jd ex n' d).
+    { intros oa ob Hb. destruct (select_master n3) as [r|k] eqn:E4; [|discriminate]. simpl in Hb. inversion Hb; subst.
+      split; [apply SM; reflexivity|apply Jd_nm; reflexivity]. }
+    destruct (check_master n3) as [[|]|k]; [| |discriminate].
+    + destruct (is_master n3) eqn:M.
+      * inversion H; subst. split; [exact I3|]. apply Jd_master; assumption.
+      * destruct (master_state n3) as [x|] eqn:Ems.
+        -- destruct x; first [ apply (SMb o1 o3); exact H
+                             | inversion H; subst; split; [exact I3|]; eapply Jd_known_master; eassumption ].
+        -- apply (SMb o1 o3); exact H.
+    + apply (SMb o1 o3); exact H.
+  - (* DISTRIBUTION *)
+    destruct (ms_consistence n2 lost) as [[[n3 o3] d3]|k] eqn:E3; [|discriminate].
+    assert (W3 : WF n3) by (apply (okW_WF _ _ (fun r => fst (fst r)) _ (ms_consistence_okW n2 lost W2) E3)).
+    destruct (ms_consistence_D n2 lost n3 o3 d3 W2 I2 E3) as [I3 [Eo3 [Ef3 Hd3]]].
+    destruct d3 as [x|]; [inversion H; subst; split; [exact I3|apply Jd_soft; assumption]|].
+    destruct (is_master n3) eqn:M; inversion H; subst; (split; [exact I3|]);
+      [apply Jd_master; assumption|apply Jd_slave; assumption].
+  - (* OPERATION *)
+    destruct (ms_consistence n2 lost) as [[[n3 o3] d3]|k] eqn:E3; [|discriminate].
+    assert (W3 : WF n3) by (apply (okW_WF _ _ (fun r => fst (fst r)) _ (ms_consistence_okW n2 lost W2) E3)).
+    destruct (ms_consistence_D n2 lost n3 o3 d3 W2 I2 E3) as [I3 [Eo3 [Ef3 Hd3]]].
+    destruct d3 as [x|]; [inversion H; subst; split; [exact I3|apply Jd_soft; assumption]|].
+    destruct (is_master n3) eqn:M; inversion H; subst; (split; [exact I3|]);
+      [apply Jd_master; assumption|apply Jd_slave; assumption].
+  - (* CONCILIATION *)
+    destruct (ms_consistence n2 lost) as [[[n3 o3] d3]|k] eqn:E3; [|discriminate].
+    assert (W3 : WF n3) by (apply (okW_WF _ _ (fun r => fst (fst r)) _ (ms_consistence_okW n2 lost W2) E3)).
+    destruct (ms_consistence_D n2 lost n3 o3 d3 W2 I2 E3) as [I3 [Eo3 [Ef3 Hd3]]].
+    destruct d3 as [x|]; [inversion H; subst; split; [exact I3|apply Jd_soft; assumption]|].
+    destruct (is_master n3) eqn:M; [|inversion H; subst; split; [exact I3|apply Jd_slave; assumption]].
+    destruct (or_starting orc || or_stopping orc);
+      [inversion H; subst; split; [exact I3|apply Jd_master; assumption]|].
+    destruct (negb (or_conflict orc)); inversion H; subst; (split; [exact I3|apply Jd_master; assumption]).
+  - (* RESTARTING *)
+    destruct (ms_consistence n2 lost) as [[[n3 o3] d3]|k] eqn:E3; [|discriminate].
+    destruct (ms_consistence_D n2 lost n3 o3 d3 W2 I2 E3) as [I3 [Eo3 [Ef3 Hd3]]].
+    destruct d3 as [x|]; [inversion H; subst; split; [exact I3|apply Jd_nm; reflexivity]|].
+    destruct (is_master n3) eqn:M; inversion H; subst; (split; [exact I3|]).
+    + destruct (or_stopping orc); [apply Jd_same; congruence|apply Jd_nm; reflexivity].
+    + unfold ending_slave_next. destruct (master_state n') as [ms|]; [|apply Jd_nm; reflexivity].
+      destruct (sstate_eqb ms RESTARTING); [apply Jd_same; congruence|apply Jd_nm; reflexivity].
+  - (* SHUTTING_DOWN *)
+    destruct (ms_consistence n2 lost) as [[[n3 o3] d3]|k] eqn:E3; [|discriminate].
+    destruct (ms_consistence_D n2 lost n3 o3 d3 W2 I2 E3) as [I3 [Eo3 [Ef3 Hd3]]].
+    destruct d3 as [x|]; [inversion H; subst; split; [exact I3|apply Jd_nm; reflexivity]|].
+    destruct (is_master n3) eqn:M; inversion H; subst; (split; [exact I3|]).
+    + destruct (or_stopping orc); [apply Jd_same; congruence|apply Jd_nm; reflexivity].
+    + unfold ending_slave_next. destruct (master_state n') as [ms|]; [|apply Jd_nm; reflexivity].
+      destruct (sstate_eqb ms SHUTTING_DOWN); [apply Jd_same; congruence|apply Jd_nm; reflexivity].
+  - (* FINAL *) inversion H; subst. split; [exact I2|exact Logic.I].
+Qed.
+
+
+(* ---------- the loop, the requests ---------- *)
+Lemma aget_map_icode : forall m (l : alist istate),
+  aget m (map (fun kv => (fst kv, icode (snd kv))) l) = option_map icode (aget m l).
+Proof.
+  intros m l. induction l as [|[k v] r IH]; simpl; [reflexivity|]. destruct (Z.eqb m k); [reflexivity|exact IH].
+Qed.
+
+Lemma sees_running_in_pub : forall n m, sees_running_in m (pub_insts n) = sees_running n m.
+Proof.
+  intros n m. unfold sees_running_in, pub_insts, sees_running. rewrite aget_map_icode.
+  destruct (aget m (sm_insts (own n))) as [[]|]; reflexivity.
+Qed.
+
+Lemma IVx_of_IV : forall ex n n', IVx ex n -> IV n' -> n_opts n' = n_opts n -> IVx ex n'.
+Proof. intros ex n n' [_ [_ Hx]] [W I] E. split; [exact W|]. split; [exact I|]. rewrite E. exact Hx. Qed.
+
+Lemma IVx_IV : forall ex n, IVx ex n -> IV n.
+Proof. intros ex n [W [I _]]. split; assumption. Qed.
+
+Lemma enter_D : forall ex n ns now, IVx ex n -> Jd ex n (Some ns) -> ns <> fsm_state n ->
+  fsm_transition_ok (fsm_state n) ns = true ->
+  Qok true ex ns (master n) (pub_insts n) /\ IVx ex (fst (enter_state (fst (set_fsm n ns)) ns now)).
+Proof.
+  intros ex n ns now HI HJ Hne Hok. split.
+  - unfold Qok. simpl. destruct (needs_master (scode ns)) eqn:En; [|reflexivity]. simpl.
+    destruct (HJ En Hne) as [[Hex Hs]|[Hm Hr]].
+    + subst. reflexivity.
+    + rewrite sees_running_in_pub, Hr. apply Z.eqb_neq in Hm. rewrite Hm. apply orb_true_r.
+  - destruct HI as [W [I Hx]].
+    assert (W1 := set_fsm_WF n ns W). assert (I1 := set_fsm_ID n ns W I).
+    assert (O1 : n_opts (fst (set_fsm n ns)) = n_opts n) by (unfold set_fsm; destruct (sstate_eqb _ ns); reflexivity).
+    destruct (set_fsm n ns) as [n1 o1]. simpl in *.
+    assert (W2 := enter_state_WF n1 ns now W1).
+    assert (X : ID (fst (enter_state n1 ns now)) /\ n_opts (fst (enter_state n1 ns now)) = n_opts n1).
+    { destruct ns; simpl; split; first [exact I1|reflexivity]. }
+    destruct X as [I2 O2]. split; [exact W2|]. split; [exact I2|]. rewrite O2, O1. exact Hx.
+Qed.
+
+Lemma ending_D : forall ex n t, IVx ex n -> is_master n = true -> (t = RESTARTING \/ t = SHUTTING_DOWN) -> Jd ex n (Some t).
+Proof.
+  intros ex n t [W [I _]] M _ _ _. right. unfold is_master in M. apply Z.eqb_eq in M.
+  assert (Hm : master n <> 0) by (rewrite M; apply me_nonzero; assumption).
+  split; [exact Hm|apply SMlocal; assumption].
+Qed.
+
+Lemma fsm_run_D : forall ex n orcs now n' outs, IVx ex n -> fsm_run n orcs now = Ok (n', outs) ->
+  IVx ex n' /\ TR (Qok true ex) n outs n'.
+Proof.
+  intros ex n orcs now n' outs HI H.
+  apply (fsm_run_TR (Qok true ex) (IVx ex) (Jd ex)) with (orcs := orcs) (now := now); try assumption.
+  - intros. eapply fsm_next_D; eassumption.
+  - intros. apply enter_D; assumption.
+Qed.
+
+Lemma on_ending_D : forall ex n t orcs now err n' outs, IVx ex n -> (t = RESTARTING \/ t = SHUTTING_DOWN) ->
+  on_ending n t orcs now err = Ok (n', outs) -> IVx ex n' /\ TR (Qok true ex) n outs n'.
+Proof.
+  intros ex n t orcs now err n' outs HI Ht H.
+  apply (on_ending_TR (Qok true ex) (IVx ex) (Jd ex)) with (t := t) (orcs := orcs) (now := now) (err := err); try assumption.
+  - intros. eapply fsm_next_D; eassumption.
+  - intros. apply enter_D; assumption.
+  - intros. apply ending_D; assumption.
+Qed.
+
+(* ---------- events ---------- *)
+(* hypotheses on the received events for the Master part:
+   - a peer publication is SM-local (the peer is a Supvisors instance: own_sm_local holds of it),
+   - end_sync names an instance seen RUNNING (checked by the XML-RPC gate; the form without a name is only
+     accepted with the USER option, excluded by ID) *)
+Definition evD (n : node) (e : event) : bool :=
+  match e with
+  | PeerState _ st dg m insts _ _ => sm_local (mkSm st dg m insts)
+  | ReqEndSync m _ _ => negb (Z.eqb m 0) && sees_running n m
+  | _ => true
+  end.
+
+Lemma step_WF : forall n e n' outs, WF n -> step n e = Ok (n', outs) -> WF n'.
+Proof.
+  intros n e n' outs W H. destruct (wf_event n e) eqn:Ew.
+  - assert (X := step_okF n e W Ew). rewrite H in X. exact X.
+  - destruct (not_wf_crashes n e W Ew) as [k Ek]. congruence.
+Qed.
+
+Lemma IV_tick : forall n j s s', IV n -> aget j (n_insts n) = Some s -> is_state s' = is_state s ->
+  IV (set_insts n (aset j s' (n_insts n))).
+Proof.
+  intros n j s s' [W I] Ej Es. split; [eapply WF_tick; eassumption|].
+  eapply ID_same; [exact I| | | |]; try reflexivity.
+  intros k. simpl. apply amem_aset_same. unfold amem. rewrite Ej. reflexivity.
+Qed.
+
+Theorem step_D : forall ex n e n' outs, IVx ex n -> evD n e = true -> step n e = Ok (n', outs) ->
+  IVx ex n' /\ TR (Qok true ex) n outs n'.
+Proof.
+  intros ex n e n' outs HI He H.
+  assert (HIV := IVx_IV ex n HI).
+  (* events that do not run the FSM: frame + invariant *)
+  assert (NF : forall n1 o1, IV n1 -> FR n o1 n1 -> IVx ex n1 /\ TR (Qok true ex) n o1 n1).
+  { intros n1 o1 I1 F1. split; [|apply FR_TR; exact F1]. eapply IVx_of_IV; [exact HI|exact I1|apply F1]. }
+  destruct e; simpl in H, He.
+  - (* LocalTick *)
+    destruct (aget (n_me n) (n_insts n)) as [s|] eqn:Es; [|discriminate].
+    match type of H with context [set_inst_state ?x _ _ _] => set (n1 := x) in * end.
+    assert (F1 : FR n [] n1) by apply set_insts_FR.
+    assert (I1 : IV n1) by (eapply IV_tick; [exact HIV|exact Es|reflexivity]).
+    match type of H with match ?u with _ => _ end = _ => destruct u as [[n2 o2]|k] eqn:E2; [|discriminate] end.
+    assert (X2 : FR n1 o2 n2 /\ IV n2).
+    { destruct (istate_eqb (is_state s) ISTOPPED).
+      - destruct (set_inst_state n1 (n_me n) CHECKING now) as [[n2' o2']|k] eqn:E; [|discriminate].
+        simpl in E2. inversion E2; subst. split.
+        + apply set_inst_state_FR in E. eapply FR_trans; [exact E|apply FR_plain; reflexivity].
+        + eapply set_inst_state_IV; eassumption.
+      - inversion E2; subst. split; [apply FR_refl|exact I1]. }
+    destruct X2 as [F2 I2].
+    destruct (on_timer n2 cnt now) as [[n3 o3]|k] eqn:E3; [|discriminate].
+    assert (I3 := on_timer_IV _ _ _ _ _ E3 I2). apply on_timer_FR in E3.
+    match type of H with (let '(_, _) := ?u in _) = _ => destruct u as [n4 o4] eqn:E4 end.
+    assert (X4 : FR n3 o4 n4 /\ IV n4).
+    { destruct (n_mark n3); inversion E4; subst.
+      - split; [apply (FR_nil_r n3 n3); [apply FR_publish|apply FR_silent; [repeat split|reflexivity]]|].
+        eapply IV_same; [exact I3| | | | |]; reflexivity.
+      - split; [apply FR_refl|exact I3]. }
+    destruct X4 as [F4 I4].
+    destruct (fsm_run n4 orcs now) as [[n5 o5]|k] eqn:E5; [|discriminate]. simpl in H. inversion H; subst.
+    assert (F14 : FR n (o2 ++ o3 ++ o4) n4).
+    { apply (FR_nil_l n n1); [exact F1|]. eapply FR_trans; [exact F2|]. eapply FR_trans; [exact E3|exact F4]. }
+    assert (HI4 : IVx ex n4) by (eapply IVx_of_IV; [exact HI|exact I4|apply F14]).
+    destruct (fsm_run_D ex _ _ _ _ _ HI4 E5) as [HI5 T5]. split; [exact HI5|].
+    replace (o2 ++ o3 ++ o4 ++ o5) with ((o2 ++ o3 ++ o4) ++ o5) by (rewrite <- !app_assoc; reflexivity).
+    eapply TR_trans; [apply FR_TR; exact F14|exact T5].
+  - (* PeerTick *)
+    destruct (resolve n og) as [j|]; [|inversion H; subst; apply NF; [exact HIV|apply FR_refl]].
+    destruct (local_checked_or_running n); [|inversion H; subst; apply NF; [exact HIV|apply FR_refl]].
+    destruct (aget j (n_insts n)) as [s|] eqn:Es; [|discriminate].
+    match type of H with context [set_insts n ?x] => assert (I1 : IV (set_insts n x))
+      by (eapply IV_tick; [exact HIV|exact Es|reflexivity]) end.
+    destruct (istate_eqb (is_state s) ISTOPPED).
+    + match type of H with context [set_inst_state ?x _ _ _] => set (n1 := x) in * end.
+      destruct (set_inst_state n1 j CHECKING now) as [[n2 o2]|k] eqn:E; [|discriminate].
+      simpl in H. inversion H; subst. apply NF; [eapply set_inst_state_IV; eassumption|].
+      apply set_inst_state_FR in E. apply (FR_nil_l n n1); [apply set_insts_FR|].
+      eapply FR_trans; [exact E|apply FR_plain; reflexivity].
+    + inversion H; subst. apply NF; [exact I1|apply set_insts_FR].
+  - (* PeerState *)
+    destruct (resolve n og) as [j|] eqn:Er; [|inversion H; subst; apply NF; [exact HIV|apply FR_refl]].
+    apply resolve_some in Er. destruct Er as [_ [_ [s [Es _]]]].
+    match type of H with context [fsm_run ?x _ _] => set (n1 := x) in * end.
+    assert (X1 : FR n [] n1 /\ IV n1).
+    { unfold n1. destruct (Z.eqb j (n_me n)) eqn:E; [split; [apply FR_refl|exact HIV]|].
+      apply Z.eqb_neq in E. split; [apply FR_silent; [repeat split|]; apply own_set_views_other; exact E|].
+      destruct HIV as [W I].
+      assert (Hj : amem j (n_views n) = true).
+      { destruct W as [_ [_ [W3 _]]]. rewrite W3. unfold amem. rewrite Es. reflexivity. }
+      split.
+      - apply (WF_fields n); try reflexivity; [exact W| |].
+        + intros k. simpl. apply amem_aset_same. exact Hj.
+        + intros k. rewrite own_set_views_other; [|exact E]. destruct W as [_ [W2 _]]. apply W2.
+      - destruct I as [I1 [I2 [I3 [I4 I5]]]]. repeat split.
+        + simpl. rewrite akeys_aset; [exact I1|exact Hj].
+        + rewrite own_set_views_other; [exact I2|exact E].
+        + exact I3.
+        + intros k v. simpl. rewrite aget_aset. destruct (Z.eqb k j); [|apply I4].
+          intros X. inversion X; subst. exact He.
+        + exact I5. }
+    destruct X1 as [F1 I1].
+    destruct (Z.eqb j (master n1)).
+    + assert (HI1 : IVx ex n1) by (eapply IVx_of_IV; [exact HI|exact I1|apply F1]).
+      destruct (fsm_run_D ex _ _ _ _ _ HI1 H) as [HI2 T2]. split; [exact HI2|].
+      apply (TR_nil_l _ n n1); [apply FR_TR; exact F1|exact T2].
+    + inversion H; subst. apply NF; assumption.
+  - (* Ident *) inversion H; subst. apply NF; [exact HIV|apply FR_refl].
+  - (* Auth *)
+    destruct (resolve n og) as [j|]; [|inversion H; subst; apply NF; [exact HIV|apply FR_refl]].
+    destruct (aget j (n_insts n)) as [s|]; [|discriminate].
+    destruct (is_checking s ts); [|inversion H; subst; apply NF; [exact HIV|apply FR_refl]].
+    destruct a; apply NF;
+      first [eapply set_inst_state_IV; eassumption | eapply invalidate_IV; eassumption
+            | eapply set_inst_state_FR; eassumption | eapply invalidate_FR; eassumption].
+  - (* AllInfo *)
+    destruct (resolve n og) as [j|]; [|inversion H; subst; apply NF; [exact HIV|apply FR_refl]].
+    destruct info as [b|]; [|apply NF; [eapply set_inst_state_IV; eassumption|eapply set_inst_state_FR; eassumption]].
+    destruct (inst_state n j) as [[]|]; inversion H; subst; try (apply NF; [exact HIV|apply FR_refl]).
+    destruct b; [|apply NF; [exact HIV|apply FR_refl]].
+    apply NF; [eapply IV_same; [exact HIV| | | | |]; reflexivity|apply FR_silent; [repeat split|reflexivity]].
+  - (* InstFailure *)
+    destruct (resolve n og) as [j|]; [|inversion H; subst; apply NF; [exact HIV|apply FR_refl]].
+    destruct (inst_state n j) as [s|]; [|inversion H; subst; apply NF; [exact HIV|apply FR_refl]].
+    destruct (has_active_state s); [|inversion H; subst; apply NF; [exact HIV|apply FR_refl]].
+    apply NF; [eapply set_inst_state_IV; eassumption|eapply set_inst_state_FR; eassumption].
+  - (* ProcCrash *)
+    destruct (is_master n) eqn:M; [|inversion H; subst; apply NF; [exact HIV|apply FR_refl]].
+    destruct strat; try (inversion H; subst; apply NF; [exact HIV|apply FR_refl]).
+    + inversion H; subst. apply NF; [exact HIV|]. apply FR_by_master; [exact M|destruct forced; reflexivity].
+    + inversion H; subst. apply NF; [exact HIV|]. apply FR_by_master; [exact M|destruct forced; reflexivity].
+    + eapply on_ending_D; [exact HI|right; reflexivity|exact H].
+    + eapply on_ending_D; [exact HI|left; reflexivity|exact H].
+  - (* ReqRestart *) eapply on_ending_D; [exact HI|left; reflexivity|exact H].
+  - (* ReqShutdown *) eapply on_ending_D; [exact HI|right; reflexivity|exact H].
+  - (* ReqEndSync *)
+    apply andb_prop in He. destruct He as [Hm0 Hr]. apply negb_true_iff in Hm0. rewrite Hm0 in H.
+    destruct (set_master n m) as [n1 o1] eqn:E1.
+    assert (F1 := set_master_FR _ _ _ _ E1).
+    assert (I1 : IV n1).
+    { destruct HIV as [W I]. assert (A := set_master_WF n m W). assert (B := set_master_ID n m W I (or_intror Hr)).
+      rewrite E1 in A, B. split; assumption. }
+    destruct (fsm_run n1 orcs now) as [[n2 o2]|k] eqn:E2; [|discriminate]. simpl in H. inversion H; subst.
+    assert (HI1 : IVx ex n1) by (eapply IVx_of_IV; [exact HI|exact I1|apply F1]).
+    destruct (fsm_run_D ex _ _ _ _ _ HI1 E2) as [HI2 T2]. split; [exact HI2|].
+    eapply TR_trans; [apply FR_TR; exact F1|exact T2].
+Qed.
+
+
+(* D: each entry into DISTRIBUTION, OPERATION, CONCILIATION, RESTARTING, SHUTTING_DOWN is published with a known
+   Master that the instance sees RUNNING (ex = true: except SHUTTING_DOWN, finding F5; ex = false: the SHUTDOWN
+   failure strategy is not configured) *)
+Theorem enter_needs_running_master_partial : forall ex n e n' outs, IVx ex n -> evD n e = true ->
+  step n e = Ok (n', outs) ->
+  c02_chain (scode (fsm_state n)) (pub_chain (observe n' outs)) true ex = true.
+Proof.
+  intros ex n e n' outs HI He H. destruct (step_D ex n e n' outs HI He H) as [_ [_ T]].
+  rewrite pub_chain_observe. eapply tr_c02_chain. exact T.
+Qed.
+
+Definition evD_hist : node -> list event -> Prop := hist_ok (fun n e => evD n e = true).
+
+Theorem run_enter_needs_running_master_partial : forall ex n evs, IVx ex n -> evD_hist n evs ->
+  nspec_ok (mkFlags true true ex false false false false false) (n, evs, run n evs) = true.
+Proof.
+  intros ex n evs HI Hh. unfold nspec_ok.
+  apply (nspec_walk_run _ n (IVx ex) (fun n e => evD n e = true)); [| |exact HI|exact Hh].
+  - intros n1 e n' outs HI1 He H. destruct (step_D ex n1 e n' outs HI1 He H) as [HI' _]. split; [exact HI'|].
+    unfold step_checks. simpl. rewrite (enter_needs_running_master_partial ex _ _ _ _ HI1 He H). reflexivity.
+  - intros. reflexivity.
+Qed.
+
+(* ---------- the hypotheses are needed: witnesses ---------- *)
+Definition ex3_node (user : bool) : node :=
+  let own0 := mkSm OFF false 0 [(1, ISTOPPED); (2, ISTOPPED); (3, ISTOPPED)] in
+  mkNode 1 (mkOpts 2 false false false true false user 0 FS_CONTINUE) [] [] [(1, 1); (2, 2); (3, 3)]
+         [(1, mkIst ISTOPPED 0 0 0); (2, mkIst ISTOPPED 0 0 0); (3, mkIst ISTOPPED 0 0 0)]
+         [(1, own0); (2, sm_fresh); (3, sm_fresh)] [] false 0 [].
+Definition og3 := mkOrigin (Some 3) true.
+Definition all_r := [(1, IRUNNING); (2, IRUNNING); (3, IRUNNING)].
+(* instance 2 publishes a Master (3) that its own instance states do not show RUNNING: not SM-local *)
+Definition byz_hist : list event :=
+  [LocalTick 1 10 [orc0]; Auth og1 A_AUTHORIZED 11 12; PeerTick og2 1 13; Auth og2 A_AUTHORIZED 14 15;
+   PeerState og2 DISTRIBUTION false 3 [(1, IRUNNING); (2, IRUNNING); (3, ISTOPPED)] 16 [orc0];
+   PeerState og3 DISTRIBUTION false 3 all_r 17 [orc0];
+   LocalTick 2 20 [orc0]; LocalTick 3 25 [orc0]].
+
+
+Ltac nodup_keys := repeat (constructor; [simpl; intuition discriminate|]); constructor.
+
+Lemma ex3_node_WF : forall user, WF (ex3_node user).
+Proof.
+  intros user. repeat split.
+  - intros j. simpl. destruct (Z.eqb j 1); [reflexivity|]. destruct (Z.eqb j 2); [reflexivity|]. destruct (Z.eqb j 3); reflexivity.
+  - intros j. unfold amem. simpl. destruct (Z.eqb j 1); [reflexivity|]. destruct (Z.eqb j 2); [reflexivity|]. destruct (Z.eqb j 3); reflexivity.
+  - intros j. unfold amem. simpl. destruct (Z.eqb j 1); [reflexivity|]. destruct (Z.eqb j 2); [reflexivity|].
+    destruct (Z.eqb j 3); [reflexivity|discriminate].
+Qed.
+
+Lemma ex3_node_ID : ID (ex3_node false).
+Proof.
+  repeat split; try (simpl; nodup_keys).
+  intros j v. simpl. destruct (Z.eqb j 1); [intro E; inversion E; reflexivity|].
+  destruct (Z.eqb j 2); [intro E; inversion E; reflexivity|].
+  destruct (Z.eqb j 3); [intro E; inversion E; reflexivity|discriminate].
+Qed.
+
+(* (2) a publication that is not SM-local installs a Master that is not seen RUNNING: DISTRIBUTION is entered with it *)
+Theorem byzantine_master_refuted : exists n evs, IVx true n /\
+  nspec_ok (mkFlags true true true false false false false false) (n, evs, run n evs) = false.
+Proof.
+  exists (ex3_node false), byz_hist. split; [|vm_compute; reflexivity].
+  split; [apply ex3_node_WF|]. split; [apply ex3_node_ID|left; reflexivity].
+Qed.
+
+(* USER synchronization: every publication is SM-local, but the Master accepted from a peer is never seen RUNNING *)
+Definition user_hist : list event :=
+  [LocalTick 1 10 [orc0]; Auth og1 A_AUTHORIZED 11 12; PeerTick og2 1 13; Auth og2 A_AUTHORIZED 14 15;
+   PeerState og2 ELECTION false 3 all_r 16 [orc0];
+   PeerState og3 DISTRIBUTION false 3 all_r 17 [orc0];
+   LocalTick 2 20 [orc0]; InstFailure og2 21; LocalTick 3 25 [orc0]].
+
+(* (3) with the USER option the hypothesis o_user = false of ID is needed, even with SM-local publications only *)
+Theorem user_sync_master_refuted : exists n evs, WF n /\ evD_hist n evs /\
+  nspec_ok (mkFlags true true true false false false false false) (n, evs, run n evs) = false.
+Proof.
+  exists (ex3_node true), user_hist. split; [apply ex3_node_WF|]. split; [vm_compute; repeat split|vm_compute; reflexivity].
+Qed.
+
+(* the hypotheses are satisfiable, on a history that enters DISTRIBUTION and OPERATION *)
+Lemma ex_node_ID : forall strict fs, ID (ex_node strict fs).
+Proof.
+  intros strict fs. repeat split; try (simpl; nodup_keys).
+  intros j v. simpl. destruct (Z.eqb j 1); [intro E; inversion E; reflexivity|].
+  destruct (Z.eqb j 2); [intro E; inversion E; reflexivity|discriminate].
+Qed.
+
+Example ex_enter_needs_running_master :
+  nspec_ok (mkFlags true true false false false false false false)
+           (ex_node false FS_CONTINUE, ex_hist, run (ex_node false FS_CONTINUE) ex_hist) = true.
+Proof.
+  apply run_enter_needs_running_master_partial.
+  - split; [apply ex_node_WF|]. split; [apply ex_node_ID|right; discriminate].
+  - vm_compute. repeat split.
+Qed.
